@@ -141,6 +141,8 @@ fn recurse_single(
     p_chance: f64,
     p_player: [f64; 2],
 ) -> f64 {
+    #[cfg(cfr_verif)]
+    crate::verif::visit(node, false);
     match node {
         Node::Terminal(payoff) => *payoff,
         Node::Chance(chance) => {
@@ -245,8 +247,12 @@ fn recurse_multi(
     cached: &impl CachedPayoff,
 ) -> f64 {
     if let Some(pay) = cached.get_payoff(node) {
+        #[cfg(cfr_verif)]
+        crate::verif::visit(node, true);
         pay
     } else {
+        #[cfg(cfr_verif)]
+        crate::verif::visit(node, false);
         match node {
             Node::Terminal(payoff) => *payoff,
             Node::Chance(chance) => {
@@ -303,7 +309,13 @@ fn solve_generic_single(
     params: &RegretParams,
 ) -> SolveInfo {
     let mut regs = [f64::INFINITY; 2];
+    #[cfg(cfr_verif)]
+    verif_inject_single(&mut player_infosets);
     for it in 1..=iter {
+        #[cfg(cfr_verif)]
+        if it < crate::verif::first_it() {
+            continue;
+        }
         let [player_one, player_two] = &player_infosets;
         recurse_single(
             start,
@@ -319,11 +331,15 @@ fn solve_generic_single(
                 .map(|info| info.get_mut().advance(it, params))
                 .sum();
         }
+        #[cfg(cfr_verif)]
+        crate::verif::iter_end(it, regs);
         let [reg_one, reg_two] = regs;
         if f64::max(reg_one, reg_two) < max_reg {
             break;
         }
     }
+    #[cfg(cfr_verif)]
+    verif_extract_single(&mut player_infosets);
     let strats = player_infosets.map(|player| {
         Vec::from(player)
             .into_iter()
@@ -386,7 +402,13 @@ fn solve_generic_multi(
         let mut queue = Vec::with_capacity(target.get());
         let mut work = Vec::with_capacity(target.get());
         let mut payoffs = HashMap::with_capacity(target.get());
+        #[cfg(cfr_verif)]
+        verif_inject_multi(&mut player_infosets);
         for it in 1..=iter {
+            #[cfg(cfr_verif)]
+            if it < crate::verif::first_it() {
+                continue;
+            }
             // compute threadding threshold
             let [player_one, player_two] = &mut player_infosets;
             thread_threshold(
@@ -397,9 +419,16 @@ fn solve_generic_multi(
                 &mut queue,
                 &mut work,
             );
+            #[cfg(cfr_verif)]
+            crate::verif::frontier(
+                queue.iter().map(|(node, _, _)| *node),
+                work.iter().map(|(node, _, _)| *node),
+            );
             // send threshold to threads for computation
             let [player_one, player_two] = &player_infosets;
             payoffs.par_extend(queue.par_drain(..).map(|(node, p_chance, p_player)| {
+                #[cfg(cfr_verif)]
+                crate::verif::task(node);
                 let payoff = recurse_multi(
                     node,
                     &chance_infosets,
@@ -410,6 +439,8 @@ fn solve_generic_multi(
                 );
                 (ByAddress(node), payoff)
             }));
+            #[cfg(cfr_verif)]
+            crate::verif::tasks_done();
             // search full from there
             recurse_multi(
                 start,
@@ -423,12 +454,18 @@ fn solve_generic_multi(
             for (reg, infos) in regs.iter_mut().zip(player_infosets.iter_mut()) {
                 *reg = infos.iter_mut().map(|info| info.advance(it, params)).sum();
             }
+            #[cfg(cfr_verif)]
+            crate::verif::pass_end(it, 2);
+            #[cfg(cfr_verif)]
+            crate::verif::iter_end(it, regs);
             let [reg_one, reg_two] = regs;
             if f64::max(reg_one, reg_two) < max_reg {
                 break;
             }
         }
     });
+    #[cfg(cfr_verif)]
+    verif_extract_multi(&mut player_infosets);
     let strats = player_infosets.map(|player| {
         Vec::from(player)
             .into_iter()
@@ -552,6 +589,73 @@ pub(crate) fn solve_sampled_multi(
         thread_info,
         params,
     )
+}
+
+#[cfg(cfr_verif)]
+fn verif_inject_single(players: &mut [Box<[RefCell<RegretInfoset>]>; 2]) {
+    if let Some(state) = crate::verif::injected() {
+        for (infos, vals) in players.iter_mut().zip(state.iter()) {
+            for (info, val) in infos.iter_mut().zip(vals.iter()) {
+                let info = info.get_mut();
+                info.cum_regret.copy_from_slice(&val.cum_regret);
+                info.cum_strat.copy_from_slice(&val.cum_strat);
+                info.strat.copy_from_slice(&val.strat);
+            }
+        }
+    }
+}
+
+#[cfg(cfr_verif)]
+fn verif_extract_single(players: &mut [Box<[RefCell<RegretInfoset>]>; 2]) {
+    let [one, two] = players;
+    let get = |infos: &mut Box<[RefCell<RegretInfoset>]>| {
+        infos
+            .iter_mut()
+            .map(|info| {
+                let info = info.get_mut();
+                crate::verif::InfoState {
+                    cum_regret: info.cum_regret.to_vec(),
+                    cum_strat: info.cum_strat.to_vec(),
+                    strat: info.strat.to_vec(),
+                }
+            })
+            .collect()
+    };
+    crate::verif::extracted([get(one), get(two)]);
+}
+
+#[cfg(cfr_verif)]
+fn verif_inject_multi(players: &mut [Box<[MutexRegretInfoset]>; 2]) {
+    if let Some(state) = crate::verif::injected() {
+        for (infos, vals) in players.iter_mut().zip(state.iter()) {
+            for (info, val) in infos.iter_mut().zip(vals.iter()) {
+                for (atom, reg) in info.cum_regret.iter_mut().zip(val.cum_regret.iter()) {
+                    *atom.get_mut() = *reg;
+                }
+                info.cum_strat
+                    .get_mut()
+                    .unwrap()
+                    .copy_from_slice(&val.cum_strat);
+                info.strat.copy_from_slice(&val.strat);
+            }
+        }
+    }
+}
+
+#[cfg(cfr_verif)]
+fn verif_extract_multi(players: &mut [Box<[MutexRegretInfoset]>; 2]) {
+    let [one, two] = players;
+    let get = |infos: &mut Box<[MutexRegretInfoset]>| {
+        infos
+            .iter_mut()
+            .map(|info| crate::verif::InfoState {
+                cum_regret: info.cum_regret.iter_mut().map(|a| *a.get_mut()).collect(),
+                cum_strat: info.cum_strat.get_mut().unwrap().to_vec(),
+                strat: info.strat.to_vec(),
+            })
+            .collect()
+    };
+    crate::verif::extracted([get(one), get(two)]);
 }
 
 #[cfg(test)]
